@@ -75,4 +75,5 @@ pub fn run(ctx: &Ctx) {
         let cls = |name: &str| match name { "0" => "zero", "n" | "n+1" | "max" => "ge-n", _ => "in-range" };
         check_text(ctx, "boundary-scalars", i, &format!("r={},s={}", cls(rn), if sn == "half-n+1" || sn == "n-1" { "high" } else { cls(sn) }), &t);
     });
+    crate::hist::histories(ctx, P, "signature-histories", "Signature::from_str / Display, a sequence on one fresh thread", crate::hist::c15_ops());
 }
